@@ -1,5 +1,6 @@
 import MicroHttp.Props.C08
 import MicroHttp.Props.C08Live
+import MicroHttp.Props.C08System
 #print axioms MicroHttp.C08.respond_ok
 #print axioms MicroHttp.C08.read_yields_deliveries
 #print axioms MicroHttp.C08.respond_arms_out
@@ -14,3 +15,9 @@ import MicroHttp.Props.C08Live
 #print axioms MicroHttp.C08.poll_ok
 #print axioms MicroHttp.C08.poll_progress
 #print axioms MicroHttp.C08.lexLt_wf
+#print axioms MicroHttp.C08.system_inv
+#print axioms MicroHttp.C08.sent_is_consumed_plus_unread
+#print axioms MicroHttp.C08.yielded_is_spec
+#print axioms MicroHttp.C08.received_is_own_queue
+#print axioms MicroHttp.C08.queue_is_answers_and_interims
+#print axioms MicroHttp.C08.answers_match_yields
